@@ -1028,6 +1028,29 @@ func ruleRECONCE(c *Ctx, r *Report) {
 		}
 	}
 	r.floor(rule, "self-recursive functions", n, 2)
+	// the JSON encoder re-enters itself through json.Marshal(child): encoding the same child twice on one path
+	// (directly or in a helper that "only looks") doubles the work at every level
+	if enc := c.method(pkgExpr, "Expression", "MarshalJSON"); enc != nil {
+		paths, _ := c.enumPathsOpt(enc, 20000, c.inlBool())
+		bad := map[string]string{}
+		for _, p := range paths {
+			seen := map[string]int{}
+			for _, pc := range p.Calls {
+				if calleeFullName(pc.Call) == "encoding/json.Marshal" && len(pc.Args) == 1 && (strings.HasSuffix(pc.Args[0], ".Left") || strings.HasSuffix(pc.Args[0], ".Right")) {
+					seen[pc.Args[0]]++
+					if seen[pc.Args[0]] == 2 {
+						bad[pc.Args[0]] = c.instrPos(pc.Call)
+					}
+				}
+			}
+		}
+		if len(bad) == 0 {
+			r.ok(rule, fnName(enc)+"|json.Marshal", c.pos(enc.Pos()), "each child encoded at most once per path")
+		}
+		for k, pos := range bad {
+			r.bad(rule, fnName(enc)+"|json.Marshal|"+k, pos, fmt.Sprintf("%s encodes the same child (%s) twice on one path: json.Marshal re-enters MarshalJSON, so the work doubles at every level and encoding takes time exponential in the nesting depth", fnName(enc), k))
+		}
+	}
 }
 
 // PARSE-INPUT (C05/C06/C08/C09/C16): the query text reaches the lexer untouched and nothing but the
@@ -1205,4 +1228,63 @@ func ruleLOOPRETURNS(c *Ctx, r *Report) {
 		r.bad(rule, key, c.instrPos(p.Ret), "the parse loop fails with an error of its own ("+c.key(ev, ee)+") before end of input: a criterion outside the shift predicate, the reducers and the token→literal function rejects queries (conditions: "+strings.Join(atomStrings(p.Atoms), " ∧ ")+")")
 	}
 	r.floor(rule, "error returns of the parse loop", n, 2)
+}
+
+// REDUCE-SITES (C05/C07/C09): reductions happen only where the shift predicate says "reduce".
+func ruleREDUCESITES(c *Ctx, r *Report) {
+	const rule = "REDUCE-SITES"
+	r.doc(rule, "every call of the reduce method in the parse loop (and its private helpers) is dominated by a negative outcome of the shift predicate — for the next token, or for the injected AND — and by no positive one: when and how far the stack is reduced is decided by the precedence table alone, never by what a token looks like (a special case such as 'a number after ^ completes the operator' makes one spelling of a query parse and another fail)")
+	pr := c.parserRoles()
+	if pr.Err != "" {
+		r.bad(rule, "anchor", "-", pr.Err)
+		return
+	}
+	n := 0
+	for _, f := range c.Funcs {
+		if fnPkgPath(f) != pkgRoot || (f != pr.ParseLoop && !c.reachedOnlyFrom(f, pr.ParseLoop, 0)) || f == pr.ReduceM {
+			continue
+		}
+		for _, b := range f.Blocks {
+			for _, in := range b.Instrs {
+				call, ok := in.(*ssa.Call)
+				if !ok || call.Call.StaticCallee() != pr.ReduceM {
+					continue
+				}
+				n++
+				neg, pos := false, false
+				var facts []string
+				decided := false
+				check := func(atoms []Atom) {
+					// atoms come nearest dominator first: the innermost verdict of the shift predicate decides
+					for _, a := range atoms {
+						if a.Kind == "call" && a.Fn == pr.ShouldShift && !decided {
+							decided = true
+							facts = append(facts, a.String())
+							if a.Pos {
+								pos = true
+							} else {
+								neg = true
+							}
+						}
+					}
+				}
+				check(c.domAtoms(b))
+				if f != pr.ParseLoop {
+					// a helper: the facts at its call sites count as well
+					c.withContexts(f, pr.ParseLoop, 0, func(outer []Atom) { check(outer) })
+				}
+				// the loop form `for !shouldShift(tok) { reduce() }`: the header's test dominates the body on its false edge
+				key := fnName(f) + "|reduce#" + c.callOrdinal(f, in)
+				switch {
+				case neg && !pos:
+					r.ok(rule, key, c.instrPos(in), "only under a 'reduce' verdict of the shift predicate: "+strings.Join(facts, " ∧ "))
+				case pos:
+					r.bad(rule, key, c.instrPos(in), "the parse loop reduces inside a branch in which the shift predicate said 'shift' ("+strings.Join(facts, " ∧ ")+"): a reduction decided by something other than the precedence table")
+				default:
+					r.bad(rule, key, c.instrPos(in), "the parse loop reduces without having asked the shift predicate: a reduction decided by something other than the precedence table")
+				}
+			}
+		}
+	}
+	r.floor(rule, "reduce calls in the parse loop", n, 2)
 }
